@@ -6,6 +6,7 @@ HARNESS = 'c19'
 COQ_IMPORTS = 'From VRP Require Import Base.Tac Model.Gsom.'
 MODEL_TARGETS = ['theories/Model/Gsom.vo']
 MODEL_NEEDS_IMPL = True
+SUBSTREAMS = ['c19_weights']      # numeric half: weights, errors, min/max, distances, measures (float twin + exact model)
 SHARD = 12
 SIZES = {'quick': 700, 'thorough': 5000, 'search': 1500}
 SEARCH_ROUNDS = 2
@@ -555,7 +556,16 @@ MANIFEST_TEXT = ('Machine-checked proof (Coq, no axioms) over an executable mode
                  'the contraction remap is injective on kept coordinates, compaction never grows the map, never leaves fewer than '
                  'four nodes and keeps every non-decimated node; phases only move forward and the elite stays within elite_size. '
                  'The model is tied to /repo on every run: the real Network is driven through its public API with an instrumented '
-                 'storage, the recorded decisions drive the model inside Coq (vm_compute) and the maps are diffed after every call.')
-MANIFEST_NOTE = ('Float-decided choices are oracle inputs; weights are modelled by dimension only. Finiteness of weights, errors, mse '
-                 'and unified distance is NOT proved: it is monitored on the implementation along all streams (exploration level).')
+                 'storage, the recorded decisions drive the model inside Coq (vm_compute) and the maps are diffed after every call; '
+                 'in the numeric sub-stream nothing but the hash-map iteration order and the shuffle order is recorded: best matching '
+                 'units, errors, growth decisions, grown and adjusted weights, mse and unified distances are computed by the binary64 '
+                 'twin inside Coq and must equal the implementation bit for bit.')
+MANIFEST_NOTE = ('Lattice stream: float-decided choices are oracle inputs and weights are modelled by dimension only. Numeric stream '
+                 '(c19_weights): the weight / error / min-max / distance / measure arithmetic is modelled once over an abstract arithmetic '
+                 '(Model/GsomW.v) and instantiated over Q (theorems: dimension from the arithmetic, convex adjustment, rates in [0, 1], hull '
+                 'of non-growing updates, bounds of grown weights, first-argmin best matching unit, non-negative errors and measures, '
+                 'growth test = threshold <= error) and over IEEE binary64 (Coq primitive floats), the instance that is compared bit for bit '
+                 'with the real Network after every call. Finiteness is proved for Node::adjust (|w|, |t| <= 2^1021, rate in [0, 1]) and the '
+                 'euclidian distance (coordinates between tracked min/max within 2^1022) and refuted next to f64::MAX (finding C19-F3); '
+                 'node.error is unbounded (finding C19-F1). Finiteness of whole histories is monitored on the implementation, not proved.')
 MANIFEST_TECHNIQUE = 'Coq proof over executable model + vm_compute differential correspondence with the Rust implementation (oracle-driven)'
